@@ -372,13 +372,18 @@ func C19(c *fw.Ctx) {
 	}
 	var placedCases []placed
 	c.RunJobs(pool, func(emit func(*proto.Job)) {
-		for _, pl := range keywordPlacements() {
+		for pi, pl := range keywordPlacements() {
 			for _, k := range allKinds {
 				for form := 0; form < 3; form++ {
-					text := pl.before + pl.indent + keywordLine[k] + "\n"
+					kwl := keywordLine[k]
+					if k == "HTTP-response-code" {
+						// the one kind whose keyword is a range: its ends and the digits 0 and 9 in every position
+						kwl = []string{"100", "199", "201", "299", "300", "409", "490", "499", "500", "590", "599", "509"}[(pi*3+form)%12] + " any"
+					}
+					text := pl.before + pl.indent + kwl + "\n"
 					line := strings.Count(pl.before, "\n") + 1
 					if strings.Contains(pl.before, "\r\n") {
-						text = pl.before + pl.indent + keywordLine[k] + "\r\n"
+						text = pl.before + pl.indent + kwl + "\r\n"
 					}
 					files := map[string][]byte{}
 					pc := placed{kind: k, place: pl.name, file: "root.jst", line: line}
